@@ -11,7 +11,7 @@ T=$(mktemp -d)
 export JAVA_TOOL_OPTIONS="-Djava.io.tmpdir=$T"      # SANY unpacks its standard modules into java.io.tmpdir
 cp spec/*.tla "$T"/
 for f in "$T"/*.tla; do
-  case "$f" in */ClipProof.tla|*/AllocApa.tla) continue;; esac      # a TLAPS proof module (tlapm, check C03) and an Apalache module (apalache-mc, check C11): their library modules are not on SANY's path
+  case "$f" in */ClipProof.tla|*/AllocApa.tla|*_TTrace_*) continue;; esac      # a TLAPS proof module (tlapm, check C03) and an Apalache module (apalache-mc, check C11): their library modules are not on SANY's path
   # (tla-sany exits 0 on semantic errors: its output decides)
   o=$(cd "$T" && tla-sany "$(basename "$f")" 2>&1) || { echo "SANY failed on $f"; echo "$o" | tail -5; rm -rf "$T"; exit 1; }
   case "$o" in *"*** Errors"*|*"Unknown operator"*|*"*** Abort"*|*"Parse Error"*|*"Fatal errors"*) echo "SANY failed on $f"; echo "$o" | tail -8; rm -rf "$T"; exit 1;; esac
